@@ -114,6 +114,14 @@ func Raw(sp *spec.Spec, sv *spec.Service, m *spec.Method, tree any, route int) (
 			return nil, fmt.Errorf("path parameter %s absent", l.WireName())
 		}
 		path = strings.ReplaceAll(path, "{"+l.WireName()+"}", url.PathEscape(TextOf(v)))
+		if strings.Contains(path, "{*"+l.WireName()+"}") {
+			// catch-all: every '/'-separated piece is escaped on its own
+			parts := strings.Split(TextOf(v), "/")
+			for i := range parts {
+				parts[i] = url.PathEscape(parts[i])
+			}
+			path = strings.ReplaceAll(path, "{*"+l.WireName()+"}", strings.Join(parts, "/"))
+		}
 	}
 	q := url.Values{}
 	for _, l := range h.Query {
